@@ -37,6 +37,23 @@ def _explore(body, atoms, **kw):
         ps.Origin = orig
 
 
+def _false_edges_of_returned_bool(f, c):
+    """Edges on which the bool that call `c` returned (directly or through `?`) is false.  Found on the fully expanded origin of each switch operand, so it makes
+    no difference whether the result was bound to a named local first (`let existed = …?; if !existed`) or is tested in place (`if !…?`)."""
+    of = flow.Origin(f)
+    out = []
+    for i, blk in enumerate(f.blocks):
+        t = blk['t']
+        if t['k'] != 'switch' or t.get('onty') != 'bool' or i not in f.live_blocks():
+            continue
+        e = of.of_operand(t['on'])
+        while (e[0] == 'un' and e[1] == 'Not') or e[0] in ('field', 'downcast'):
+            e = e[2] if e[0] == 'un' else e[1]
+        if e[0] == 'call' and len(e) > 3 and e[3] is c:
+            out += [(i, tg) for tg, p in flow.switch_edge_predicates(f, i, of) if p.startswith('!')]
+    return out
+
+
 def run(ctx, prog):
     ctx.not_decided = ['numeric soundness of insert_can_affect_cached_boundary (prefix / tail-norm bound in f32)',
                        'the store/invalidate race itself — only its generation guard']
@@ -71,14 +88,17 @@ def run(ctx, prog):
                 marks[e] = set(eff.blocks(f, e))
             atoms = [pathsens.Atom('changed', unchanged_rx)] if unchanged_rx else []
             bad = []
+            # "nothing changed" = an edge on which the bool the canonical call returned is false — by the role-bound name (atom, prunes contradictory paths) and,
+            # independently of any name, by the origin of the switch operand (covers the result being tested in place, without a named local)
+            unchanged_e = set(_false_edges_of_returned_bool(f, c)) if unchanged_rx else set()
             for (a_, b_) in s_e:
-                terms, seen = _explore(f, atoms, start=b_, mark_blocks=marks)
+                terms, seen = _explore(f, atoms, start=b_, mark_blocks=marks, mark_edges={'unchanged_edge': unchanged_e})
                 for (rb, via, a, path) in terms:
                     if via:
                         continue
                     if all(a.get(e) for e in effects):
                         continue
-                    if unchanged_rx and a.get('changed') is False:
+                    if unchanged_rx and (a.get('changed') is False or a.get('unchanged_edge')):
                         continue  # the cold tier reported that nothing changed
                     bad.append(a)
             if unchanged_rx and not any(True for _ in [0]):
